@@ -324,8 +324,11 @@ class RSocketBase(RSocket, RSocketInternal):
 
     async def _on_connection_closed(self):
         self.stop_all_streams()
-        await self._handler.on_close(self)
-        await self._stop_tasks()
+
+        try:
+            await self._handler.on_close(self)
+        finally:
+            await self._stop_tasks()
 
     @abc.abstractmethod
     def is_server_alive(self) -> bool:
